@@ -80,7 +80,7 @@ class ModelRegistry:
         if dotted == 'contextlib.suppress':
             return LibFn('contextlib.suppress', lambda it_, ca: SuppressCM(ca.args))
         if dotted == 'functools.partial':
-            return LibFn('functools.partial', lambda it_, ca: Partial(ca.args[0], ca.args[1:], ca.kwargs))
+            return LibFn('functools.partial', lambda it_, ca: Partial(ca.args[0], ca.args[1:], ca.kwargs, ca.starmaps))
         if dotted == 'collections.defaultdict':
             return ClsRef('collections.defaultdict')
         if dotted == 'collections.deque':
